@@ -19,6 +19,7 @@
 
 from numpy import (
     inf,
+    isinf,
     isnan,
     nan,
 )
@@ -543,6 +544,9 @@ class Parser:
             self.pop_token()
             self.expect_number()
             token = self.pop_token()
+            if isinf(token.value):
+                raise InvalidNumericValue(token, f"Expected 0 < value <= {VERSION}!")
+
             version = int(token.value)
             if not (0 < version <= VERSION):
                 raise InvalidNumericValue(token, f"Expected 0 < value <= {VERSION}!")
